@@ -64,11 +64,14 @@ def run(rep, drv):
 			r, Q, g = py
 			def c(rr, QQ):
 				return (K * lam + sum(G[y - lo] for y in range(rr + 1, rr + QQ + 1))) / QQ
-			if abs(c(r, Q) - g) > 1e-9 * max(1, abs(g)):
-				bad.append('reported cost %r but (r,Q)=(%d,%d) costs %r' % (g, r, Q, c(r, Q)))
-			best = min((c(rr, QQ), rr, QQ) for rr in range(max(lo, r - 8), r + 9) for QQ in range(1, Q + 12))
-			if best[0] < g - 1e-9 * max(1, abs(g)):
-				bad.append('integer pair (%d,%d) costs %r < reported %r' % (best[1], best[2], best[0], g))
+			if Q < 1 or r < lo or r + Q + 12 >= hi:
+				bad.append('returned pair (r,Q)=(%d,%d) is not a policy in the range of the table (Q >= 1, %d <= r, r+Q < %d)' % (r, Q, lo, hi))
+			else:
+				if abs(c(r, Q) - g) > 1e-9 * max(1, abs(g)):
+					bad.append('reported cost %r but (r,Q)=(%d,%d) costs %r' % (g, r, Q, c(r, Q)))
+				best = min((c(rr, QQ), rr, QQ) for rr in range(max(lo, r - 8), r + 9) for QQ in range(1, Q + 12))
+				if best[0] < g - 1e-9 * max(1, abs(g)):
+					bad.append('integer pair (%d,%d) costs %r < reported %r' % (best[1], best[2], best[0], g))
 			rep.count('fz:Q=%d' % min(Q, 10))
 		same = (not isinstance(py, str)) and 'error' not in mo and abs(float(unfr(mo['g'])) - py[2]) <= 1e-9 * max(1, abs(py[2])) and (mo['r'], mo['Q']) == (py[0], py[1])
 		if not same or bad:
